@@ -21,7 +21,7 @@ TECHNIQUE = 'symbolic execution of the constructors (CrossHair+z3) with an indep
 EXPLANATION = 'C08: intercepted constructor outputs walked structurally.'
 BOUNDS = 'the shape spaces of C06 / C07 / C14 (quick: every third shape) plus construct-only families with symbolic numeric fields; size boundaries 255/256 and 4096 as concrete shapes'
 ASSUMPTIONS = ['vf/ref/walker.py encodes the structural rules of RFC 4271/4760/5492/5575/7432/8277 and draft tunnel-encaps as used by yabgp']
-BUDGET = {'quick': 330, 'thorough': 2400}
+BUDGET = {'quick': 330, 'thorough': 4800}
 
 VERDICT = {'walked': 0, 'bad': 0, 'none': 0}
 
